@@ -58,6 +58,12 @@ type OpA struct {
 	// transfer FaultFID of the step's agent
 	Fault    string `json:"fault,omitempty"`
 	FaultFID uint32 `json:"fault_fid,omitempty"`
+	// elapsed time (sleep_test.go): before this step the agent was silent for Sleep seconds (sleepEpoch: time stamps at
+	// the epoch; negative: time stamps in the future) - the time stamps of the loot file of transfer SleepFID of the
+	// step's agent ("one"), of all its open transfers ("agent") or of everything below the loot root ("tree") say so
+	Sleep      int64  `json:"sleep,omitempty"`
+	SleepScope string `json:"sleep_scope,omitempty"`
+	SleepFID   uint32 `json:"sleep_fid,omitempty"`
 }
 
 // name returns the file name of an open step.
@@ -229,6 +235,12 @@ func genA(t *rapid.T) CaseA {
 	// four) have one step before which the harness breaks one dependency of the loot writer
 	if !envOn && rapid.Bool().Draw(t, "fault") {
 		genFaultOps(t, &c, na, fids, ord, simOpen)
+		return c
+	}
+	// the ELAPSED-TIME dimension: one in three of the remaining default-environment cases (about one case in
+	// twelve) has steps before which the agent slept (the loot files' time stamps are aged)
+	if !envOn && rapid.IntRange(0, 2).Draw(t, "sleepcase") == 0 {
+		genSleepOps(t, &c, na, fids, ord, simOpen)
 		return c
 	}
 	for i := 0; i < nops; i++ {
@@ -440,6 +452,16 @@ func checkA(c CaseA) (ret *core.Violation) {
 				anyHostile = true
 				noteEffect("fault applied: " + op.Fault + "@" + op.K)
 				desc += fmt.Sprintf(" [fault before the step: %s for fid %#x]", op.Fault, op.FaultFID)
+			}
+		}
+		if op.Sleep != 0 && !isBulk(op.K) {
+			done, broken := w.applySleep(op, ai, open)
+			if broken {
+				noVerdict = true
+				return nil
+			}
+			if done {
+				desc += fmt.Sprintf(" [before the step the agent was silent for %d s: time stamps of scope %q (fid %#x) aged]", op.Sleep, op.SleepScope, op.SleepFID)
 			}
 		}
 
@@ -895,15 +917,17 @@ func classifyA(c CaseA) core.Class {
 	cl.Labels = append(cl.Labels, envLabels(c)...)
 	fLabels, fFP := faultLabels(c)
 	cl.Labels = append(cl.Labels, fLabels...)
-	cl.NonTrivial = anyName.dotdot || anyName.mixed || anyName.prefixSib || interleaved || writeAfterStop || disguised || len(scLabels) > 0 || fFP != ""
-	cl.Fingerprint = fmt.Sprintf("ag=%d|dd=%v|mix=%v|sib=%v|open=%d|il=%v|stray=%v|xfer=%v|was=%v", len(c.Agents), anyName.dotdot, anyName.mixed, anyName.prefixSib, maxOpen, interleaved, stray, xferOnOpen, writeAfterStop) + fmt.Sprintf("|dis=%v", disguised) + scFP + envFP(c) + fFP
+	sLabels, sFP := sleepLabels(c)
+	cl.Labels = append(cl.Labels, sLabels...)
+	cl.NonTrivial = sFP != "" || anyName.dotdot || anyName.mixed || anyName.prefixSib || interleaved || writeAfterStop || disguised || len(scLabels) > 0 || fFP != ""
+	cl.Fingerprint = fmt.Sprintf("ag=%d|dd=%v|mix=%v|sib=%v|open=%d|il=%v|stray=%v|xfer=%v|was=%v", len(c.Agents), anyName.dotdot, anyName.mixed, anyName.prefixSib, maxOpen, interleaved, stray, xferOnOpen, writeAfterStop) + fmt.Sprintf("|dis=%v", disguised) + scFP + envFP(c) + fFP + sFP
 	return cl
 }
 
 func TestC07a(t *testing.T) {
 	core.Run(t, core.Spec[CaseA]{
 		Property: "C07", Sub: "a",
-		Rule: "1-2 Demon agents, 1-4 file ids, 1-24 steps of open/write/close (also for unknown and closed ids)/screenshot/console-log/transfer-control acknowledgement (COMMAND_TRANSFER list, stop, resume, remove and the remove follow-up package, Found true/false, for open, unknown and closed file ids of either agent), each delivered via the real TaskDispatch as COMMAND_FS download callbacks, as BEACON_OUTPUT CALLBACK_FILE* callbacks (reference-encoded as the Demon does) or by calling DownloadAdd/Write/Close; names from a path grammar (.., ., empty, Download/Downloads/Download_x/Down, Screenshots*, own and foreign agent ids, 300-char, NUL, C:, UNC; separators / \\ // \\\\ /\\ \\/, leading/trailing); half of the names are then DECORATED: removable / normalisable characters at generated positions inside components (NUL and NUL runs as in '.\\x00.' '..\\x00' '\\x00..', U+200B, U+FEFF, soft hyphen, tab, space, trailing dot / space, %2e %2f %5c escapes, overlong and invalid UTF-8 bytes; names that are not UTF-8 travel as bytes). For a decorated name any ONE new file inside the agent's Download folder is accepted as its target (the oracle is the tree walk, not an interpretation of the name). Oracle after every step: recursive listing (with contents) of a root four levels above the loot root; every created/changed file is the step's own target inside agents/<id>/Download (resp. Screenshots/Desktop_*.png, Console_<id>.log), every created directory is agents/<id>, its Download/Screenshots folder or inside the Download folder; each download file equals the concatenation of the chunks of the transfer that created it; stray writes/closes change nothing; a transfer-control acknowledgement changes nothing on disk and does not end the transfer (chunks that follow a stop/resume/remove acknowledgement are appended as before); plain names must be accepted. Non-trivial: a name with .., mixed/doubled separators or a prefix-sharing sibling, or a write while >=2 transfers of the agent are open, or a chunk after a stop/remove acknowledgement, or a decorated component that a normalisation would turn into '..'; distinct = (#agents, dotdot, sepmix, sibling, max open, interleaved, stray, ack on open transfer, write after stop, disguised dot-dot) SCALE (about 1 case in 100; thorough tier 1 in 200): BULK steps stand between the ordinary ones (ordinary steps come before, between and after them and also address ids a bulk step opened); every bulk step is a loop of the same real calls (TaskDispatch COMMAND_FS / BEACON_OUTPUT callbacks or the Download* API, one or all three in turn) whose counts come from the threshold-adjacent pool {63,64,65,127,128,129,255,256,257,511,512,513,999,1000,1001,1023,1024,1025 | 2047,2048,2049,4095,4096,4097 | 8191,8192,8193}: bopen = N downloads opened for one agent (N up to 1025 in the quick tier, 2049 in the thorough tier; several bopen steps per case, at most ~2100 opens, plus 'one to three more' after a threshold-adjacent count; file ids FID+k*stride over the whole 32-bit range with strides 1, 2, 0x10000, a large odd number and -1; names distinct per id, in 0-3 nested folders, joined by / or \\ or both, one in eight optionally decorated with a terminating NUL / U+200B / trailing dot / trailing space; optionally with the step index in the name so that a re-opened id gets a fresh file) and, interleaved with the opens, a chunk after every open for the download just opened / for the next download in a round robin over everything the agent has open / for the agent's OLDEST open download; bwrite = 1-3 rounds of one chunk for every open download (oldest first or newest first), or a burst of N chunks (N up to 4097 quick, 8193 thorough) for ONE download picked by index, or N chunks each for the oldest, the middle and the newest in turn (N up to 2049), optionally a chunk for an id that is not open after every 16th chunk; chunk lengths 0-24 and, in a share of the steps, 0, 1, 65535, 65536 and 1 MiB (every chunk of a short burst or every k-th of a long one; a case sends at most 4 MiB in the quick tier, 16 MiB in the thorough tier - beyond that the chunks fall back to the short length); bclose = closes for everything open (oldest first, newest first, every second, the oldest N, all but the oldest N; optionally closes for ids that are not open in between); breopen = one id (an open one picked by index, or a new one) closed and opened again N times (N up to 1025) with a chunk after every open, into the same file name or a fresh one per generation; bshot = N screenshot callbacks (N up to 129 quick - a callback costs ~0.5 ms - 1025 thorough); in one scale case out of four the case has 63-513 (thorough: -1025) FURTHER agents with derived ids and bulk steps may SPREAD their items over all agents in turn. The number of downloads the model lets be open at once is cut at RLIMIT_NOFILE-512 of the test process (TestMain raises the soft limit to the hard one; 20000 here, so nothing is cut; opens beyond it are skipped). Oracle at scale = the same model and permit judge: the tree is walked ONCE after the whole bulk step (checkpoint right after the count is reached) - every created/changed file is a target of this step inside agents/<id>/Download and holds exactly the concatenation of the chunks sent for its id since it was opened, every new directory is agents/<id>, its Download/Screenshots folder or inside Download, nothing else changed; plain names must be accepted; for a decorated bulk name the file the transfer reports is taken as its target if it lies inside the Download folder (the walk verifies it) - and after every ordinary step as before, so every finished and every still open file is re-compared at each later step. Labels scale:<what>:<bucket> (buckets 64-129 = 63..254, 255-513 = 255..998, 999-1025 = 999..2046, 2047-4097, 8191+) for downloads-open-at-once (per agent), chunks-per-download, reopens-of-one-id, screenshots, agents-writing-loot, chunk-for-early-download-after-more-opens (a download that already had a chunk receives another one after >= 63 further opens of its agent; bucket = downloads open at that moment); the driver keeps the 60 most frequent labels only, therefore the COMPLETE scale histogram of each shard (these classes plus scale:cases, scale:ordinary-step-while-open:<bucket>, scale:chunk-size:<0|1|65535|65536|1048576>, scale:file-size:<class>, scale:chunks-for-unknown-id-in-bulk) is published as extra 'c07a.scale_classes.<shard>' of the evidence; a scale case is non-trivial and adds (open bucket, chunk bucket, early-chunk) to the distinct key. ENVIRONMENT (half of the cases keep the harness default: absolute loot path, empty loot tree, generous descriptor limit, umask 022, the test's working directory; the other half draws in combination): per listed agent the folder agents/<id> {absent, already there, a SYMLINK to a directory outside the loot tree} and its Download folder {absent, already there, a symlink to a directory outside the loot tree, REPLACED BY A REGULAR FILE}; 0-3 files / directories PLANTED below the Download folder at names downloads use (f, a, b, report.txt, x1, g, a/b, b/f, k0, k1/k2: an existing target file, a directory where the file should be, a file where a folder is needed); umask {unchanged, 077, 027, 777}; working directory {unchanged, elsewhere, the loot path's parent with the loot path RELATIVE ('loot/agents', './loot/agents') as cmd/server.go configures it ('data/loot/<time>/agents')}; and per step (about one step in five of such a case, also bulk steps; not console-log steps): the process is OUT OF FILE DESCRIPTORS while the step's calls run (soft RLIMIT_NOFILE lowered to 64, every free number below taken by a /dev/null handle, then 0, 1 or 2 released; limit and handles restored before the tree is walked; a bulk step runs as a whole under the condition, so with k descriptors left its first k opens may succeed), or the agents root / agents/<id> / its Download folder is READ-ONLY (mode 0555, and because the harness runs as root CAP_DAC_OVERRIDE and CAP_DAC_READ_SEARCH are dropped on the locked thread for the step; restored afterwards). Model = what HEAD does, verified by experiment: containment is decided on the NAMES (the loot tree as the teamserver names it) and the file then lies where the planted links lead (a folder behind a link the administrator planted IS the agent's folder; the walk does not follow links, the link targets lie inside the walked root); a step under a hostile condition, and any open of an agent whose Download folder is a file, MAY be refused - the demands 'a plain name must be accepted' and 'a screenshot file must appear' are dropped for it, nothing else: a refused open creates no file (folders inside the Download folder may appear), chunks for its id are chunks for an unknown id and go nowhere, whatever is created lies inside the agent's folders with exactly the bytes sent, and every earlier file - finished or still open - keeps exactly its chunks, also when its next chunk arrives after the hostile step. Console-log steps are skipped under a per-step condition (AddAgentInput / AddAgentRaw / DemonAddOutput end the process with log.Fatal when the log cannot be opened; process exit is not this property). NO VERDICT (case counted, nothing judged) when the harness cannot establish or undo a condition (setrlimit / capset / chmod / chdir / symlink fails, or umask 7xx without root). Labels env:default, env:download-dir=<pre|link|file>, env:agent-dir=<pre|link>, env:planted=<file|dir>, env:umask=<077|027|777>, env:cwd=<elsewhere|loot-parent>, env:loot-path=relative, env:fd-exhausted-step, env:read-only-step, env:chunk-for-earlier-transfer-after-hostile-open (a transfer that had a chunk when an open ran under a hostile condition receives a further chunk); the finer classes (step kind x descriptors left / which folder) and what the conditions did (opens accepted / refused, screenshots saved / not saved under each condition, no-verdict count) are the extras 'c07a.env_classes.<shard>' and 'c07a.env_effects.<shard>' of the evidence; a case with a hostile step adds one bit to the distinct key FAULT INJECTION (half of the cases that keep the default environment and carry no bulk steps, i.e. about one case in four): the history is 0-5 ordinary steps, a transfer with a plain name (r0, r1, sub/r2, sub\\r3; or one an ordinary step opened) and 0-3 chunks, 0-2 ordinary steps, THE FAULT STEP, then 1-10 steps of which about half address the faulted id again (late chunks, its close, a re-open of the id under the same or another name, stop/resume/remove/list acknowledgements) and half are ordinary. Before the fault step the harness breaks ONE dependency of the loot writer from outside, through the real file system / descriptor table, no hooks: closed = the open download's *os.File (found through the agent's exported Downloads list) is closed by the harness, so that every later Write / Close of the teamserver on it fails; closed-raw = close(2) on that file's descriptor number immediately before a close step for the id (File.Close then fails with EBADF; only before a close step, so that nothing can take the number before the teamserver lets go of it); enospc = for the duration of ONE write step the descriptor number refers to /dev/full (dup3), the write fails with ENOSPC, afterwards the original descriptor is put back if the teamserver still uses the same handle; removed / replaced-by-directory / read-only = the loot file is unlinked / unlinked and a directory created in its place / set to mode 0444 while the transfer is open; folder-removed = the agent's whole Download folder is removed while transfers are open. The fault step itself is a chunk for the id, its close, an acknowledgement for it, or the open of ANOTHER id. Oracle unchanged (every file equals the concatenation of the chunks sent for its id between open and close; chunks for ids that are not open go nowhere; nothing outside the agent's folders), with HEAD's behaviour, verified by experiment, as the meaning of a failed step: a close whose File.Close fails still ENDS the transfer - later chunks for the id are chunks for a closed id and change nothing, the finished file keeps its bytes, the id can be opened again; a write whose descriptor fails is either RECOVERED (the file holds every chunk including the late one) or DROPPED (the file keeps exactly the earlier chunks, and then nothing more may be written to it) - a file that holds the late chunk ALONE is reported as 'DownloadWrite|write-error-on-descriptor|earlier-chunks-lost' (HEAD does exactly that: os.Create in the fallback truncates; open known finding with a repair proposal); when the late chunk equals the earlier content the tree cannot tell these apart and that one file is not judged any further; a file that was unlinked / replaced / whose folder was removed does not come back through chunks of its transfer (HEAD keeps writing into the unlinked inode) and nothing else changes, the folder is created again by the next open, a name whose file was unlinked may be used by a new transfer; a read-only file keeps receiving its chunks. NO VERDICT when the harness cannot establish or undo the fault. Labels fault:<dependency>:<operation>:<how>@<step kind> = fault:file:descriptor:closed@{write,close,xfer,open}, fault:file:descriptor:closed-raw@close, fault:file:write:enospc@write, fault:file:path:{removed,replaced-by-directory,read-only}@{write,close,xfer,open}, fault:folder:download:removed@{write,close,xfer,open} (counted when the faulted transfer is open at that step by the specification-level simulation, else fault:ineffective(transfer-not-open)), fault:while>=2-transfers-open, and what follows: fault-then:chunk-for-faulted-open-transfer, fault-then:close-of-faulted-transfer, fault-then:late-chunk-for-closed-id, fault-then:reopen-of-id, fault-then:ack-for-faulted-id; the complete histogram of each shard is the extra 'c07a.fault_classes.<shard>', what the faults did (applied per class, failing writes recovered / dropped / ambiguous) is part of 'c07a.env_effects.<shard>'; a fault case is non-trivial and adds the fault to the distinct key",
+		Rule: "1-2 Demon agents, 1-4 file ids, 1-24 steps of open/write/close (also for unknown and closed ids)/screenshot/console-log/transfer-control acknowledgement (COMMAND_TRANSFER list, stop, resume, remove and the remove follow-up package, Found true/false, for open, unknown and closed file ids of either agent), each delivered via the real TaskDispatch as COMMAND_FS download callbacks, as BEACON_OUTPUT CALLBACK_FILE* callbacks (reference-encoded as the Demon does) or by calling DownloadAdd/Write/Close; names from a path grammar (.., ., empty, Download/Downloads/Download_x/Down, Screenshots*, own and foreign agent ids, 300-char, NUL, C:, UNC; separators / \\ // \\\\ /\\ \\/, leading/trailing); half of the names are then DECORATED: removable / normalisable characters at generated positions inside components (NUL and NUL runs as in '.\\x00.' '..\\x00' '\\x00..', U+200B, U+FEFF, soft hyphen, tab, space, trailing dot / space, %2e %2f %5c escapes, overlong and invalid UTF-8 bytes; names that are not UTF-8 travel as bytes). For a decorated name any ONE new file inside the agent's Download folder is accepted as its target (the oracle is the tree walk, not an interpretation of the name). Oracle after every step: recursive listing (with contents) of a root four levels above the loot root; every created/changed file is the step's own target inside agents/<id>/Download (resp. Screenshots/Desktop_*.png, Console_<id>.log), every created directory is agents/<id>, its Download/Screenshots folder or inside the Download folder; each download file equals the concatenation of the chunks of the transfer that created it; stray writes/closes change nothing; a transfer-control acknowledgement changes nothing on disk and does not end the transfer (chunks that follow a stop/resume/remove acknowledgement are appended as before); plain names must be accepted. Non-trivial: a name with .., mixed/doubled separators or a prefix-sharing sibling, or a write while >=2 transfers of the agent are open, or a chunk after a stop/remove acknowledgement, or a decorated component that a normalisation would turn into '..'; distinct = (#agents, dotdot, sepmix, sibling, max open, interleaved, stray, ack on open transfer, write after stop, disguised dot-dot) SCALE (about 1 case in 100; thorough tier 1 in 200): BULK steps stand between the ordinary ones (ordinary steps come before, between and after them and also address ids a bulk step opened); every bulk step is a loop of the same real calls (TaskDispatch COMMAND_FS / BEACON_OUTPUT callbacks or the Download* API, one or all three in turn) whose counts come from the threshold-adjacent pool {63,64,65,127,128,129,255,256,257,511,512,513,999,1000,1001,1023,1024,1025 | 2047,2048,2049,4095,4096,4097 | 8191,8192,8193}: bopen = N downloads opened for one agent (N up to 1025 in the quick tier, 2049 in the thorough tier; several bopen steps per case, at most ~2100 opens, plus 'one to three more' after a threshold-adjacent count; file ids FID+k*stride over the whole 32-bit range with strides 1, 2, 0x10000, a large odd number and -1; names distinct per id, in 0-3 nested folders, joined by / or \\ or both, one in eight optionally decorated with a terminating NUL / U+200B / trailing dot / trailing space; optionally with the step index in the name so that a re-opened id gets a fresh file) and, interleaved with the opens, a chunk after every open for the download just opened / for the next download in a round robin over everything the agent has open / for the agent's OLDEST open download; bwrite = 1-3 rounds of one chunk for every open download (oldest first or newest first), or a burst of N chunks (N up to 4097 quick, 8193 thorough) for ONE download picked by index, or N chunks each for the oldest, the middle and the newest in turn (N up to 2049), optionally a chunk for an id that is not open after every 16th chunk; chunk lengths 0-24 and, in a share of the steps, 0, 1, 65535, 65536 and 1 MiB (every chunk of a short burst or every k-th of a long one; a case sends at most 4 MiB in the quick tier, 16 MiB in the thorough tier - beyond that the chunks fall back to the short length); bclose = closes for everything open (oldest first, newest first, every second, the oldest N, all but the oldest N; optionally closes for ids that are not open in between); breopen = one id (an open one picked by index, or a new one) closed and opened again N times (N up to 1025) with a chunk after every open, into the same file name or a fresh one per generation; bshot = N screenshot callbacks (N up to 129 quick - a callback costs ~0.5 ms - 1025 thorough); in one scale case out of four the case has 63-513 (thorough: -1025) FURTHER agents with derived ids and bulk steps may SPREAD their items over all agents in turn. The number of downloads the model lets be open at once is cut at RLIMIT_NOFILE-512 of the test process (TestMain raises the soft limit to the hard one; 20000 here, so nothing is cut; opens beyond it are skipped). Oracle at scale = the same model and permit judge: the tree is walked ONCE after the whole bulk step (checkpoint right after the count is reached) - every created/changed file is a target of this step inside agents/<id>/Download and holds exactly the concatenation of the chunks sent for its id since it was opened, every new directory is agents/<id>, its Download/Screenshots folder or inside Download, nothing else changed; plain names must be accepted; for a decorated bulk name the file the transfer reports is taken as its target if it lies inside the Download folder (the walk verifies it) - and after every ordinary step as before, so every finished and every still open file is re-compared at each later step. Labels scale:<what>:<bucket> (buckets 64-129 = 63..254, 255-513 = 255..998, 999-1025 = 999..2046, 2047-4097, 8191+) for downloads-open-at-once (per agent), chunks-per-download, reopens-of-one-id, screenshots, agents-writing-loot, chunk-for-early-download-after-more-opens (a download that already had a chunk receives another one after >= 63 further opens of its agent; bucket = downloads open at that moment); the driver keeps the 60 most frequent labels only, therefore the COMPLETE scale histogram of each shard (these classes plus scale:cases, scale:ordinary-step-while-open:<bucket>, scale:chunk-size:<0|1|65535|65536|1048576>, scale:file-size:<class>, scale:chunks-for-unknown-id-in-bulk) is published as extra 'c07a.scale_classes.<shard>' of the evidence; a scale case is non-trivial and adds (open bucket, chunk bucket, early-chunk) to the distinct key. ENVIRONMENT (half of the cases keep the harness default: absolute loot path, empty loot tree, generous descriptor limit, umask 022, the test's working directory; the other half draws in combination): per listed agent the folder agents/<id> {absent, already there, a SYMLINK to a directory outside the loot tree} and its Download folder {absent, already there, a symlink to a directory outside the loot tree, REPLACED BY A REGULAR FILE}; 0-3 files / directories PLANTED below the Download folder at names downloads use (f, a, b, report.txt, x1, g, a/b, b/f, k0, k1/k2: an existing target file, a directory where the file should be, a file where a folder is needed); umask {unchanged, 077, 027, 777}; working directory {unchanged, elsewhere, the loot path's parent with the loot path RELATIVE ('loot/agents', './loot/agents') as cmd/server.go configures it ('data/loot/<time>/agents')}; and per step (about one step in five of such a case, also bulk steps; not console-log steps): the process is OUT OF FILE DESCRIPTORS while the step's calls run (soft RLIMIT_NOFILE lowered to 64, every free number below taken by a /dev/null handle, then 0, 1 or 2 released; limit and handles restored before the tree is walked; a bulk step runs as a whole under the condition, so with k descriptors left its first k opens may succeed), or the agents root / agents/<id> / its Download folder is READ-ONLY (mode 0555, and because the harness runs as root CAP_DAC_OVERRIDE and CAP_DAC_READ_SEARCH are dropped on the locked thread for the step; restored afterwards). Model = what HEAD does, verified by experiment: containment is decided on the NAMES (the loot tree as the teamserver names it) and the file then lies where the planted links lead (a folder behind a link the administrator planted IS the agent's folder; the walk does not follow links, the link targets lie inside the walked root); a step under a hostile condition, and any open of an agent whose Download folder is a file, MAY be refused - the demands 'a plain name must be accepted' and 'a screenshot file must appear' are dropped for it, nothing else: a refused open creates no file (folders inside the Download folder may appear), chunks for its id are chunks for an unknown id and go nowhere, whatever is created lies inside the agent's folders with exactly the bytes sent, and every earlier file - finished or still open - keeps exactly its chunks, also when its next chunk arrives after the hostile step. Console-log steps are skipped under a per-step condition (AddAgentInput / AddAgentRaw / DemonAddOutput end the process with log.Fatal when the log cannot be opened; process exit is not this property). NO VERDICT (case counted, nothing judged) when the harness cannot establish or undo a condition (setrlimit / capset / chmod / chdir / symlink fails, or umask 7xx without root). Labels env:default, env:download-dir=<pre|link|file>, env:agent-dir=<pre|link>, env:planted=<file|dir>, env:umask=<077|027|777>, env:cwd=<elsewhere|loot-parent>, env:loot-path=relative, env:fd-exhausted-step, env:read-only-step, env:chunk-for-earlier-transfer-after-hostile-open (a transfer that had a chunk when an open ran under a hostile condition receives a further chunk); the finer classes (step kind x descriptors left / which folder) and what the conditions did (opens accepted / refused, screenshots saved / not saved under each condition, no-verdict count) are the extras 'c07a.env_classes.<shard>' and 'c07a.env_effects.<shard>' of the evidence; a case with a hostile step adds one bit to the distinct key FAULT INJECTION (half of the cases that keep the default environment and carry no bulk steps, i.e. about one case in four): the history is 0-5 ordinary steps, a transfer with a plain name (r0, r1, sub/r2, sub\\r3; or one an ordinary step opened) and 0-3 chunks, 0-2 ordinary steps, THE FAULT STEP, then 1-10 steps of which about half address the faulted id again (late chunks, its close, a re-open of the id under the same or another name, stop/resume/remove/list acknowledgements) and half are ordinary. Before the fault step the harness breaks ONE dependency of the loot writer from outside, through the real file system / descriptor table, no hooks: closed = the open download's *os.File (found through the agent's exported Downloads list) is closed by the harness, so that every later Write / Close of the teamserver on it fails; closed-raw = close(2) on that file's descriptor number immediately before a close step for the id (File.Close then fails with EBADF; only before a close step, so that nothing can take the number before the teamserver lets go of it); enospc = for the duration of ONE write step the descriptor number refers to /dev/full (dup3), the write fails with ENOSPC, afterwards the original descriptor is put back if the teamserver still uses the same handle; removed / replaced-by-directory / read-only = the loot file is unlinked / unlinked and a directory created in its place / set to mode 0444 while the transfer is open; folder-removed = the agent's whole Download folder is removed while transfers are open. The fault step itself is a chunk for the id, its close, an acknowledgement for it, or the open of ANOTHER id. Oracle unchanged (every file equals the concatenation of the chunks sent for its id between open and close; chunks for ids that are not open go nowhere; nothing outside the agent's folders), with HEAD's behaviour, verified by experiment, as the meaning of a failed step: a close whose File.Close fails still ENDS the transfer - later chunks for the id are chunks for a closed id and change nothing, the finished file keeps its bytes, the id can be opened again; a write whose descriptor fails is either RECOVERED (the file holds every chunk including the late one) or DROPPED (the file keeps exactly the earlier chunks, and then nothing more may be written to it) - a file that holds the late chunk ALONE is reported as 'DownloadWrite|write-error-on-descriptor|earlier-chunks-lost' (HEAD does exactly that: os.Create in the fallback truncates; open known finding with a repair proposal); when the late chunk equals the earlier content the tree cannot tell these apart and that one file is not judged any further; a file that was unlinked / replaced / whose folder was removed does not come back through chunks of its transfer (HEAD keeps writing into the unlinked inode) and nothing else changes, the folder is created again by the next open, a name whose file was unlinked may be used by a new transfer; a read-only file keeps receiving its chunks. NO VERDICT when the harness cannot establish or undo the fault. Labels fault:<dependency>:<operation>:<how>@<step kind> = fault:file:descriptor:closed@{write,close,xfer,open}, fault:file:descriptor:closed-raw@close, fault:file:write:enospc@write, fault:file:path:{removed,replaced-by-directory,read-only}@{write,close,xfer,open}, fault:folder:download:removed@{write,close,xfer,open} (counted when the faulted transfer is open at that step by the specification-level simulation, else fault:ineffective(transfer-not-open)), fault:while>=2-transfers-open, and what follows: fault-then:chunk-for-faulted-open-transfer, fault-then:close-of-faulted-transfer, fault-then:late-chunk-for-closed-id, fault-then:reopen-of-id, fault-then:ack-for-faulted-id; the complete histogram of each shard is the extra 'c07a.fault_classes.<shard>', what the faults did (applied per class, failing writes recovered / dropped / ambiguous) is part of 'c07a.env_effects.<shard>'; a fault case is non-trivial and adds the fault to the distinct key ELAPSED TIME (one in three of the default-environment cases that carry neither bulk steps nor a fault, about one case in twelve): every other history runs within milliseconds, a real agent sleeps between two chunks of a transfer. The history is 0-4 ordinary steps, a transfer with a plain name (s0, s1, sub/s2, sub\\s3; or one an ordinary step opened) and 0-3 chunks, in a third of the cases a second transfer of the same agent, 0-2 ordinary steps, then 2-10 steps - chunks / the close / stop-resume-remove-list acknowledgements / a re-open for that id, the OPEN OF ANOTHER id of the same agent (names m0, sub/m1, ...), screenshots, console lines, ordinary steps - of which the first and about one in four of the others are preceded by a SLEEP of the agent. The teamserver has no clock the harness could turn; what records elapsed time between two callbacks is the file system, so a sleep of d is established from outside through the real file system (os.Chtimes, no hooks): modification and access time set to now-d for the loot file of that one open transfer (scope one), the loot files of all open transfers of the agent (scope agent), or every file and directory below the loot root (scope tree, all agents, finished files, logs, screenshots); d from {1 s, 59 s, 61 s, 10 min -/+ 1 s, 30 min -/+ 1 s, 1 h -/+ 1 s, 2 h, 12 h -/+ 1 s, 24 h -/+ 1 s, 8 d, 31 d, 366 d, time stamps at the epoch, time stamps one hour in the FUTURE (clock stepped back)}. Oracle unchanged - the property does not mention time: a transfer stays open however long the agent was silent, so chunks after the sleep are appended (every file equals the concatenation of the chunks sent for its id between open and close), acknowledgements change nothing, the open of another id does not touch it, nothing is removed. NO VERDICT when a time stamp cannot be set. Labels sleep:<'<1min'|1-30min|30-60min|1-24h|1-30d|'>30d'|epoch|future>, sleep@<kind of the step after the sleep: write, close, xfer, open-of-another-id, open-of-an-open-id, shot, log>, sleep:scope=<one|agent|tree>, sleep:transfer-with-chunks-open-meanwhile / -without-chunk-, sleep:while>=2-transfers-open, sleep:ineffective(no-transfer-open), and what follows: sleep-then:chunk-for-slept-transfer, sleep-then:open-of-another-id, sleep-then:open-of-another-id-then-chunk-for-slept-transfer, sleep-then:close-of-slept-transfer, sleep-then:ack-for-slept-transfer (all by the specification-level simulation of what is open); the complete histogram of each shard is the extra 'c07a.sleep_classes.<shard>'; a case in which a transfer was open during a sleep is non-trivial and adds the coarse duration (<1h, <1d, >=1d, epoch, future) to the distinct key",
 		Gen:  genA, Check: checkA, Classify: classifyA,
 		Assumptions: []string{
 			"file ids and target files of simultaneously open transfers of one agent differ (steps violating this are skipped)",
@@ -912,6 +936,7 @@ func TestC07a(t *testing.T) {
 			"environment: what lies behind a symlink the harness planted for agents/<id> or its Download folder counts as that agent's folder; under a per-step hostile condition (descriptor exhaustion, read-only folder) and for an agent whose Download folder is a file the teamserver may refuse the step; console-log steps are not performed under such a condition (log.Fatal); a case whose condition cannot be established or undone gives no verdict",
 			"scale: at most RLIMIT_NOFILE-512 downloads are open at once in one case (the teamserver keeps one handle per open download); bulk opens beyond that are skipped",
 			"fault injection: after a write that failed on the transfer's descriptor the file must hold every chunk (recovered) or exactly the earlier chunks with nothing written afterwards (dropped); a file the harness unlinked / replaced / whose folder it removed is not expected back; if the failed write leaves the file equal to both the earlier chunks and the late chunk alone that file is not judged further; a case whose fault cannot be established or undone gives no verdict",
+			"elapsed time: a sleep of the agent is represented by the time stamps (mtime, atime) of the loot files / of the whole loot tree, set through os.Chtimes - the teamserver process itself does not wait; a case whose time stamps cannot be set gives no verdict",
 		},
 	})
 }
